@@ -45,14 +45,36 @@ Record config := mkCfg {
   mv_counters_atomic : bool;        (* MotionValidator::valid_ / invalid_ are std::atomic *)
   mv_increments_rmw : bool;         (* DiscreteMotionValidator only uses ++ / += on them (one read-modify-write) *)
   ptc_flags_atomic : bool;          (* PlannerTerminationCondition: terminate_, evalValue_, signalThreadStop_ are std::atomic *)
+  ptc_eval_terminate_first : bool;  (* eval() tests terminate_ before anything else, and terminate() writes nothing but terminate_ / the stop signal *)
   pdef_solutions_locked : bool;     (* every method of PlannerSolutionSet takes its mutex first *)
   rng_seeds_locked : bool;          (* RNGSeedGenerator methods take the mutex; creation through call_once *)
   spaces_registry_locked : bool;    (* the registry of allocated state spaces is guarded by its mutex in every function that touches it *)
   console_locked : bool;            (* log output is serialised by a mutex *)
   gnat_query_no_shared_scratch : bool }.  (* the thread-safe GNAT keeps no mutable per-query scratch data in the object *)
 Definition config_ok (c : config) : bool :=
-  mv_counters_atomic c && mv_increments_rmw c && ptc_flags_atomic c && pdef_solutions_locked c && rng_seeds_locked c &&
+  mv_counters_atomic c && mv_increments_rmw c && ptc_flags_atomic c && ptc_eval_terminate_first c && pdef_solutions_locked c && rng_seeds_locked c &&
   spaces_registry_locked c && console_locked c && gnat_query_no_shared_scratch c.
 (* the schedule shape a configuration allows for the motion counters: atomic increments only, or read/write pairs *)
 Definition counter_events_ok (c : config) (sched : list cev) : bool :=
   if mv_counters_atomic c && mv_increments_rmw c then forallb is_ainc sched else true.
+
+(* ---- a termination condition with an evaluation thread, as a machine over its two atomic flags.  Events of any number
+   of threads, in the order in which they take effect: a call of terminate(), the evaluation thread storing the value
+   its predicate returned, a call of eval().  [first] says which of two designs is in the sources: eval() tests
+   terminate_ first (the shipped one), or eval() of a periodic condition only reads the cached value and terminate()
+   also writes that value (a design that looks equivalent and is not). *)
+Inductive pev := PTerminate | PThreadStore (v : bool) | PEval.
+Record pst := mkP { p_term : bool; p_cached : bool }.
+Definition pstep (first periodic fn : bool) (s : pst) (e : pev) : pst * option bool :=
+  match e with
+  | PTerminate => (if first then mkP true (p_cached s) else mkP true true, None)
+  | PThreadStore v => (mkP (p_term s) v, None)
+  | PEval => (s, Some (if first then p_term s || (if periodic then p_cached s else fn)
+                       else if periodic then p_cached s else p_term s || fn))
+  end.
+Fixpoint prun (first periodic fn : bool) (s : pst) (l : list pev) : list bool :=
+  match l with
+  | [] => []
+  | e :: t => let '(s1, o) := pstep first periodic fn s e in
+              match o with Some b => b :: prun first periodic fn s1 t | None => prun first periodic fn s1 t end
+  end.
